@@ -24,7 +24,7 @@ pub struct C04 {
 impl Monitor for C04 {
     fn case(&mut self, idx: u64, rng: &mut Rng, rep: &mut Report) {
         let pk = drive::ALL_PK[(idx % 7) as usize];
-        let cfg = drive::random_cfg(rng, pk);
+        let cfg = drive::random_cfg_skip(rng, pk);
         let mut input = corpus::draw(rng, cfg, 8);
         if input.bytes.len() > self.max_len {
             input.bytes.truncate(self.max_len);
